@@ -216,7 +216,7 @@ func (r *Rng) timeBound() int64 {
 	}
 }
 
-func p64(v uint64) *uint64 { return &v }
+func p64(v uint64) *uint64  { return &v }
 func pstr(s string) *string { return &s }
 
 func (r *Rng) optID(pNil int) *uint64 {
